@@ -1,6 +1,6 @@
 (* C24  Unmatched suppressions are reported exactly.
    Statements only; every proof is `exact <lemma>` (Supp/ExecProofs.v). *)
-From CV Require Import Base.Bytes Base.Glob Supp.Defs Supp.Proofs Supp.ListProofs Supp.ExecDefs Supp.ExecProofs.
+From CV Require Import Base.Bytes Base.Glob Supp.Defs Supp.Proofs Supp.ListProofs Supp.ExecDefs Supp.ExecProofs Supp.ThreadProofs.
 Require Import Permutation.
 Local Open Scope N_scope.
 
@@ -103,6 +103,36 @@ Theorem C24_single_global_unmatched_reported pm cfg nomsg nofail fs wp o s0 :
 Proof. exact (single_global_unmatched_reported pm cfg nomsg nofail fs wp o s0). Qed.
 Print Assumptions C24_single_global_unmatched_reported.
 
+(* single executor, completeness for file-local suppressions without a line number *)
+Theorem C24_single_local_unmatched_reported pm cfg nomsg nofail fs wp o s0 p :
+  whole_run pm None cfg nomsg nofail fs wp = Some o -> Forall (inline_present nomsg) fs ->
+  c_info cfg = true ->
+  In s0 nomsg -> s_matched s0 = false -> s_inline s0 = false -> is_local s0 = true -> s_line s0 = NO_LINE ->
+  stype_eqb (s_type s0) TMacro = false -> s_hash s0 = 0 ->
+  is_nil (s_id s0) = false -> str_eqb (s_id s0) CHECKERSREPORT = false ->
+  In p (map f_path fs) -> pm (s_file s0) p = true ->
+  (forall x, In x nomsg -> str_eqb (s_id x) UNMATCHED = false) ->
+  filtered_out (c_filters cfg) s0 = false ->
+  (forall e, finding_of fs wp e -> hides pm true e s0 = false) ->
+  exists s, In s (o_unmatched o) /\ static s = static s0.
+Proof. exact (single_local_unmatched_reported pm cfg nomsg nofail fs wp o s0 p). Qed.
+Print Assumptions C24_single_local_unmatched_reported.
+
+(* thread executor: ThreadData::check's transfer of the shared list into itself changes
+   nothing (lists with pairwise different parameters, as addSuppression builds them) *)
+Theorem C24_thread_transfer_is_identity w p : uniq p = true -> incl w p -> transfer_thread p w = p.
+Proof. exact (transfer_thread_self w p). Qed.
+Print Assumptions C24_thread_transfer_is_identity.
+
+(* thread executor, any number of files: the final flags are exactly those of the queries
+   it makes: per file the dummy query and the worker logger's queries WITHOUT global
+   suppressions, plus one global query (no macro names) per finding the worker forwards *)
+Theorem C24_thread_run_flags pm bn bf fs n f seen sr :
+  multi_files pm EThread bn bf n f seen fs = Some sr -> uniq n = true -> Forall (inline_present n) fs ->
+  sr_nomsg sr = map (derive pm (thread_queries pm n f fs) (flat_map f_locs fs)) n.
+Proof. exact (thread_files_flags pm bn bf fs n f seen sr). Qed.
+Print Assumptions C24_thread_run_flags.
+
 (* worker -> parent state transfer (updateSuppressionState): the records may arrive in any order *)
 Theorem C24_state_transfer_order_independent us us' l :
   Permutation us us' -> update_all l us = update_all l us'.
@@ -139,5 +169,11 @@ Example C24_ex_run : exists o, whole_run pm_eq None w24_cfg w24_nomsg [] w24_fil
 Proof. eexists. vm_compute. reflexivity. Qed.
 Example C24_ex_reported : exists o s, whole_run pm_eq None w25_cfg w25_nomsg w25_nofail w25_files [] = Some o /\ In s (o_unmatched o).
 Proof. eexists. eexists. vm_compute. split; [reflexivity|left; reflexivity]. Qed.
+Example C24_ex_uniq : uniq w24_nomsg = true.
+Proof. reflexivity. Qed.
+Example C24_ex_thread : exists sr, multi_files pm_eq EThread w24_nomsg [] w24_nomsg [] [] w24_files = Some sr.
+Proof. eexists. vm_compute. reflexivity. Qed.
+Example C24_ex_local : is_local (mk_plain S_NULLPOINTER S_AC) = true /\ pm_eq S_AC S_AC = true.
+Proof. split; reflexivity. Qed.
 Example C24_ex_list_run : exists l' bs, list_run pm_eq w24_nomsg [(w24_finding, true)] = Some (l', bs).
 Proof. eexists. eexists. vm_compute. reflexivity. Qed.
